@@ -409,6 +409,22 @@ def run(ctx):
                     ctx.violation("C17.1", fi, rets[0].node, f"GET_EYE field `{name}`", f"is not an affine-equivariant quantity (product/ratio/modulus of level-typed values); required: {want!r}")
                 else:
                     ctx.violation("C17.1", fi, rets[0].node, f"GET_EYE field `{name}`", f"has type {t!r}; the statement requires {want!r}")
+            # slot alignment: the time axis is built independently of the data (slot boundaries at sample 0, sps, 2*sps, ...), so
+            # the record may be shortened only at its END or by whole slots at its start; a start offset that is not a multiple of
+            # sps shifts every crossing by a fraction of a slot against that axis
+            ywave = eye.fields.get("y")
+            if isinstance(ywave, Form):
+                starts = []
+                for a in ywave.atoms():
+                    if a[0] == "idx" and isinstance(a[2], SliceV) and not (isinstance(a[2].lo, Const) and a[2].lo.v is None):
+                        starts.append((a[2].lo, a))
+                bad_start = []
+                for lo, a in starts:
+                    if isinstance(lo, Form) and (lo.is_zero() or all(any(at[0] == "sym" and at[1].split(".")[-1] in ("sps", "sps_resamp") for at, _e in m) for m in lo.terms)):
+                        continue
+                    bad_start.append(lo)
+                ctx.check("C17.3", not bad_start, fi, rets[0].node, f"GET_EYE [{case}]: record trimmed at its end / by whole slots only ({len(starts)} start offsets)", "sample 0 stays a slot boundary",
+                          f"the waveform is cut from sample {bad_start[0]!r} on, which is not a whole number of slots: the folded eye is shifted by a fraction of a slot against the time axis (crossings and sampling instant misplaced for records that are not a whole number of eye periods)"[:600] if bad_start else "")
             # every comparison / sum reachable from the other stored fields as well
             for name in ("y_top", "y_bot", "y", "t", "top_int", "bot_int"):
                 if name in eye.fields:
@@ -433,3 +449,4 @@ def run(ctx):
         ctx.unknown("C17.1", fs_, fs_.node, "shortest_int", "no return")
     check_late_binding(ctx, "C17.2", ["devices.GET_EYE"])
     ctx.require_min("C17.1", 40)
+    ctx.require_min("C17.3", 4)
